@@ -28,6 +28,7 @@ import (
 
 type vHandlerStep struct {
 	Consume int    `json:"consume"` // -1: everything buffered; k: Next(k) (blocks if fewer)
+	Need    int    `json:"need"`    // > 0: a framing handler: returns WITHOUT consuming while fewer than Need bytes are buffered, else consumes Need
 	Then    string `json:"then"`    // return | close | panic | yield
 }
 
@@ -130,7 +131,9 @@ type vConnRun struct {
 	panicked     string
 	userClosed   bool
 	skips        [][2]int // ranges of the peer's stream that a thief took from the socket before netpoll could read them
+	emptyRuns    int      // framing handler: invocations that returned without consuming
 	writersLeft  int32    // writing actors that have not finished their script
+	readersLeft  int32    // reading actors that have not finished their script
 	pastDeadline bool     // the current read has a deadline in the past (its expiry is recorded right after the call)
 	inUntil      bool
 	mu           sync.Mutex
@@ -148,6 +151,17 @@ func vIsWriter(a vActorSpec) bool {
 }
 
 // writers: number of actors of the scenario that submit output
+func vIsReader(a vActorSpec) bool {
+	for _, op := range a.Ops {
+		if len(op) > 0 {
+			if k, _ := op[0].(string); k == "Next" || k == "NextT" || k == "NextD" || k == "Until" {
+				return true
+			}
+		}
+	}
+	return false
+}
+
 func (r *vConnRun) writers() int {
 	n := 0
 	for _, a := range r.sc.Actors {
@@ -299,6 +313,21 @@ func (r *vConnRun) handler(ctx context.Context, conn Connection) error {
 		}
 		r.ev("CbEnd", "request", 0, 0, "")
 	}()
+	if st.Need > 0 {
+		if r.inLen() < st.Need {
+			// incomplete request: leave it in the buffer and return (netpoll calls the handler again while input is buffered)
+			r.emptyRuns++
+			if r.emptyRuns%2 == 0 {
+				// (every other time the handler has taken so long that the rest may have arrived meanwhile)
+				need := st.Need
+				r.s.BlockUntil(func() bool { return r.inLen() >= need || !r.c.IsActiveRaw() || r.emptyRuns > 40 })
+			} else {
+				r.s.Yield()
+			}
+			return nil
+		}
+		st.Consume = st.Need
+	}
 	if err := r.consume(st.Consume, false); err != nil {
 		// a handler that cannot read what it needs gives up on the connection (the documented
 		// contract: consume everything or close), whatever the script says
@@ -359,6 +388,10 @@ func (r *vConnRun) options() *options {
 				// an application that joins its writer goroutines in OnDisconnect: they must have been woken by then
 				r.s.BlockUntil(func() bool { return atomic.LoadInt32(&r.writersLeft) == 0 })
 			}
+			if sc.DiscBody == "waitreaders" {
+				// ... or its reader goroutines: a reader blocked when the peer closed must be woken before (not by) the callback's return
+				r.s.BlockUntil(func() bool { return atomic.LoadInt32(&r.readersLeft) == 0 })
+			}
 			r.ev("CbEnd", "disconnect", 0, 0, "")
 		}
 	}
@@ -413,6 +446,9 @@ func (r *vConnRun) runActor(a vActorSpec) {
 		case "Until":
 			r.c.SetReadTimeout(0)
 			r.until()
+		case "WaitOut":
+			// wait until the poller has sent everything an earlier (timed-out) flush left in the output buffer
+			r.s.BlockUntil(func() bool { return r.outLen() == 0 || !r.c.IsActiveRaw() })
 		case "Write":
 			r.c.SetWriteTimeout(0)
 			r.write(arg)
@@ -602,8 +638,16 @@ func vRunConnScenario(sc *vScenario) (out []vOutEvent, info map[string]interface
 	mp.start()
 	r.writersLeft = int32(r.writers())
 	for _, a := range sc.Actors {
+		if vIsReader(a) {
+			r.readersLeft++
+		}
+	}
+	for _, a := range sc.Actors {
 		a := a
 		s.Go(a.Name, func() {
+			if vIsReader(a) {
+				defer atomic.AddInt32(&r.readersLeft, -1)
+			}
 			// user goroutines only touch the connection once it has been handed out
 			defer func() {
 				if x := recover(); x != nil {
